@@ -22,6 +22,9 @@ pub enum HsOp {
     /// AddHttpsFrontend for this hostname (tenant cluster `t_<hostname>` with its own backend)
     AddFront(String),
     RemoveFront(String),
+    /// UpdateHttpsListener carrying only `alpn_protocols` (the values the listener already has): the worker rebuilds its
+    /// rustls configuration; which certificates are loaded, and therefore served, does not change
+    PatchAlpn,
 }
 
 /// When an action may start (besides its virtual time). Every gate opens by itself after
@@ -215,6 +218,8 @@ pub fn generate(seed: u64, tier: Tier) -> Result<HsPlan, String> {
         let op = if slash_at == Some(j) {
             let c = *rng.pick(&pool);
             HsOp::Cert(Op::Add(gen_arg(&mut rng, c, &pool, 0, 0, true)))
+        } else if r >= 97 {
+            HsOp::PatchAlpn
         } else if r < 6 {
             let h = rng.pick(&["a.test", "b.test", "x.a.test", "www.b.test"]).to_string();
             if rng.below(3) == 0 { HsOp::RemoveFront(h) } else { HsOp::AddFront(h) }
@@ -462,7 +467,7 @@ fn simplify_arg(a: &CertArg) -> Vec<CertArg> {
 // ------------------------------------------------------------------------------------- summaries
 
 pub fn op_text(op: &HsOp, fx: &[Fx]) -> String {
-    match op { HsOp::Cert(o) => super::op_summary(o, fx), HsOp::AddFront(h) => format!("add_front {h}"), HsOp::RemoveFront(h) => format!("remove_front {h}") }
+    match op { HsOp::Cert(o) => super::op_summary(o, fx), HsOp::AddFront(h) => format!("add_front {h}"), HsOp::RemoveFront(h) => format!("remove_front {h}"), HsOp::PatchAlpn => "patch_alpn".to_string() }
 }
 
 pub fn gate_text(g: &Gate) -> String {
